@@ -614,6 +614,7 @@ fn main() {
     let mut verif_root = "/verif".to_string();
     let mut repo = std::env::var("VERIF_REPO").unwrap_or_else(|_| "/repo".to_string());
     let mut input: Option<String> = None;
+    let mut ops_arg = String::new();
     let mut i = 1;
     while i < args.len() {
         let val = || args.get(i + 1).cloned().unwrap_or_default();
@@ -629,6 +630,7 @@ fn main() {
             "--threads" => { threads = val().parse().unwrap(); i += 1; }
             "--verif-root" => { verif_root = val(); i += 1; }
             "--repo" => { repo = val(); i += 1; }
+            "--ops" => { ops_arg = val(); i += 1; }
             "--input" => { input = Some(val()); i += 1; }
             _ => {}
         }
@@ -642,9 +644,9 @@ fn main() {
     let sh = Arc::new(Shared { g, c, stats: Stats::default(), violations: Mutex::new(Vec::new()), classes: Mutex::new(BTreeMap::new()),
         visited_states: Mutex::new(BTreeSet::new()), histories_by_len: Mutex::new(BTreeMap::new()), samples: Mutex::new(Vec::new()) });
 
-    // a single history given explicitly (re-run of a violation file): --mode one, ops in VERIF_OPS
+    // a single history given explicitly (re-run of a violation file): --mode one --ops 3,17,9
     if mode == "one" {
-        let ops: Vec<usize> = std::env::var("VERIF_OPS").unwrap_or_default().split(',').filter_map(|s| s.trim().parse().ok()).collect();
+        let ops: Vec<usize> = ops_arg.split(',').filter_map(|s| s.trim().parse().ok()).collect();
         let mut rng = Rng::new(seed);
         for k in &ops { eprintln!("  {}", describe(&sh.g, &sh.c, *k)); }
         match run_history(&sh.g, &sh.c, &ops, 0, &mut rng, &sh.stats) {
